@@ -348,7 +348,7 @@ META = {
               'SharesManager -> FakeShares (every file shared, fixed size)',
               'UserManager.track_user / untrack_user -> no-op coroutines (tracking traffic is C15)',
               'time.monotonic / time.time in aioslsk.transfer.manager and .model -> virtual clock of the loop',
-              'aiofiles.open in aioslsk.transfer.manager -> in-memory handle',
+              'aiofiles.open in aioslsk.transfer.manager -> in-memory handle; asyncos (aiofiles.os) in aioslsk.transfer.manager -> FakeFS',
               'asyncio event loop -> engine.vloop.VLoop subclass that records which coroutine/transfer each task was created for',
               'step only: Transfer.state -> object exposing VALUE as a lazily forking symbolic enum (real state classes in replay); '
               'list in aioslsk.transfer.manager -> list subclass that merges the outcomes of a symbolic slice bound',
